@@ -34,9 +34,10 @@ func (e *codeErr) Unwrap() error {
 }
 
 type rec struct {
-	pulls map[int]int
-	log   [][]any
-	errs  map[int]*codeErr
+	pulls  map[int]int
+	log    [][]any
+	errs   map[int]*codeErr
+	valSrc bool // sources are handed to the combinators by value, as an uncomparable struct type
 }
 
 func (r *rec) err(code int) error {
@@ -94,6 +95,16 @@ func (c *cStream) Close() {
 	c.r.log = append(c.r.log, []any{"close", c.id})
 	c.inner.Close()
 }
+
+// valStream is a stream passed by value whose dynamic type is not comparable (func fields): code that compares
+// streams with == panics on it.
+type valStream struct {
+	next  func(context.Context) (int, error)
+	close func()
+}
+
+func (v valStream) Next(ctx context.Context) (int, error) { return v.next(ctx) }
+func (v valStream) Close()                                { v.close() }
 
 type scriptStream struct {
 	evs [][]any
@@ -314,7 +325,12 @@ func buildStreamZ(d map[string]any, r *rec) stream.Stream[int] {
 	case "src":
 		id := num(d["id"])
 		r.pulls[id] += 0
-		return &cStream{inner: streamSource(d["src"].(map[string]any), r), id: id, r: r}
+		cs := &cStream{inner: streamSource(d["src"].(map[string]any), r), id: id, r: r}
+		if r.valSrc {
+			// handed over by value, as a struct of funcs: a stream type that cannot be compared with ==
+			return valStream{next: cs.Next, close: cs.Close}
+		}
+		return cs
 	case "peek":
 		return stream.WithPeek(sub())
 	case "compact":
@@ -433,6 +449,7 @@ func pullsOf(r *rec) []int {
 // cfg: kind ("iter"|"stream"), pipe, prog ({"steps": [...]} | {"reduce": [...], "live": bool})
 func runPipes(c *Case) *Obs {
 	r := &rec{pulls: map[int]int{}, errs: map[int]*codeErr{}}
+	r.valSrc, _ = c.Cfg["valsrc"].(bool)
 	kind := c.Cfg["kind"].(string)
 	pipe := c.Cfg["pipe"].(map[string]any)
 	prog := c.Cfg["prog"].(map[string]any)
